@@ -64,12 +64,12 @@ theorem auth_sound {w : World} {cid : Nat} {req : Req}
           exact ⟨m, hg, hc, isValid_usable h.1, Or.inr ⟨hs, h.2.1.symm, h.2.2.imp Eq.symm Eq.symm⟩⟩
   · simp [ht, resumeTunnel] at h
 
-/-- A request that is not refused passed every check of the dispatcher, and the tunnel it addressed belongs
-to the mapping it presented credentials for. -/
-theorem passed_of_not_refused {w : World} {id : ConnIdent} {req : Req} {ts : TunnelState}
-    (h : openTunnel w id req ts ≠ refuse) :
+/-- A request that is not refused passed every check of the dispatcher, and the tunnel it addressed at arrival
+belongs to the mapping it presented credentials for. -/
+theorem passed_of_not_refused_dyn {w : World} {id : ConnIdent} {req : Req} {ts : TunnelState} {late : Late}
+    (h : openTunnelDyn w id req ts late ≠ refuse) :
     id.hasControl = true ∧ handleTunnelOpenAuth w id.clientID req = true ∧ tunnelMappingID req ts = req.MappingID := by
-  unfold openTunnel findControlConnection at h
+  unfold openTunnelDyn findControlConnection at h
   by_cases hw : req.wellFormed = true
   · by_cases hc : id.hasControl = true
     · by_cases ha : handleTunnelOpenAuth w id.clientID req = true
@@ -87,6 +87,36 @@ theorem passed_of_not_refused {w : World} {id : ConnIdent} {req : Req} {ts : Tun
       · simp [hw, hc, ha] at h
     · simp [hw, hc] at h
   · simp [hw] at h
+
+theorem passed_of_not_refused {w : World} {id : ConnIdent} {req : Req} {ts : TunnelState}
+    (h : openTunnel w id req ts ≠ refuse) :
+    id.hasControl = true ∧ handleTunnelOpenAuth w id.clientID req = true ∧ tunnelMappingID req ts = req.MappingID :=
+  passed_of_not_refused_dyn (late := .none) h
+
+/-- On the polling branch an attachment (or traffic) presupposes that the tunnel that appeared belongs to the
+mapping of the request. -/
+theorem late_attach_mapping {w : World} {req : Req} {m n : String} {b : Bool}
+    (h : (handleTargetBridge w req (.route m n b)).attach ≠ .none) : m = req.MappingID := by
+  unfold handleTargetBridge processCrossNodeForwardLate at h
+  by_cases hm : m = req.MappingID
+  · exact hm
+  · simp [hm] at h
+
+/-- With nothing at arrival the dispatcher yields: a refusal, the source of a new bridge, or the poll's outcome. -/
+theorem dyn_none_cases (w : World) (id : ConnIdent) (req : Req) (late : Late) :
+    openTunnelDyn w id req .none late = refuse ∨
+    openTunnelDyn w id req .none late = ⟨.ok, .source, .switch⟩ ∨
+    openTunnelDyn w id req .none late = handleTargetBridge w req late := by
+  unfold openTunnelDyn findControlConnection
+  by_cases hw : req.wellFormed = true
+  · by_cases hc : id.hasControl = true
+    · by_cases ha : handleTunnelOpenAuth w id.clientID req = true
+      · by_cases hs : isSourceClient w id req = true
+        · right; left; simp [hw, hc, ha, hs]
+        · right; right; simp [hw, hc, ha, hs]
+      · left; simp [hw, hc, ha]
+    · left; simp [hw, hc]
+  · left; simp [hw]
 
 /-- Passing the checks means being entitled in the sense of the property. -/
 theorem entitled_of_passed {w : World} {id : ConnIdent} {req : Req} {ts : TunnelState}
